@@ -177,10 +177,10 @@ Definition c02_oracle (c : eng_case) (o : obs) : bool :=
   match c with
   | Eng rules root data offset _ =>
     let inp := eng_input data offset in
-    forallb part_ok (args o) && triples_ok inp (nums (raw_field o 4))
+    tag_is o "Eng" && forallb part_ok (args o) && triples_ok inp (nums (raw_field o 4))
   end.
 Definition c02_agree (e o : obs) : bool :=
-  forallb part_ok (args o) && obs_eqb (raw_field e 4) (raw_field o 4).
+  tag_is o "Eng" && forallb part_ok (args o) && obs_eqb (raw_field e 4) (raw_field o 4).
 Definition c02_harness : harness :=
   {| H_case := eng_case; H_expected := eng_expected; H_agree := c02_agree; H_oracle := c02_oracle |}.
 
@@ -285,7 +285,7 @@ Definition c06_harness : harness :=
   {| H_case := eng_case; H_expected := eng_expected; H_agree := c06_agree; H_oracle := c06_oracle |}.
 
 (* ---- C17: the call count is the model's ---- *)
-Definition c17_agree (e o : obs) : bool :=
+Definition c17_calls_agree (e o : obs) : bool :=
   obs_eqb (raw_field e 3) (raw_field o 3) && obs_eqb (eng_part (eng_part e 1) 2) (eng_part (eng_part o 1) 2).
 
 (* ---- C12: the same case at base offset 1 and at another offset: the second observation is the
@@ -347,11 +347,15 @@ Definition c17_expected (c : c17_case) : obs :=
   match c with
   | C17 k n _ _ =>
     match nth_N families k with
-    | Some f => let a := obs_of_option ON (calls_of f (N.to_nat n)) in
-                OT "C17" [a; obs_of_option ON (calls_of f (2 * N.to_nat n)); a]
+    | Some f =>
+      if existsb (Nat.eqb (N.to_nat n)) (fm_domain f) then
+        let a := obs_of_option ON (calls_of f (N.to_nat n)) in
+        OT "C17" [a; obs_of_option ON (calls_of f (2 * N.to_nat n)); a]
+      else OT "BeyondModelDomain" []      (* sizes the kernel does not evaluate: only the oracle below applies *)
     | None => OT "NoSuchFamily" []
     end
   end.
+Definition c17_agree (e o : obs) : bool := tag_is e "BeyondModelDomain" || obs_eqb e o.
 (* the property on the implementation: same count on a repeated run, calls(2n) <= 16 calls(n), calls(n) <= 4 (n+1)^4 *)
 Definition c17_oracle (c : c17_case) (o : obs) : bool :=
   match c, o with
@@ -360,4 +364,4 @@ Definition c17_oracle (c : c17_case) (o : obs) : bool :=
   | _, _ => false
   end.
 Definition c17_harness : harness :=
-  {| H_case := c17_case; H_expected := c17_expected; H_agree := obs_eqb; H_oracle := c17_oracle |}.
+  {| H_case := c17_case; H_expected := c17_expected; H_agree := c17_agree; H_oracle := c17_oracle |}.
